@@ -180,6 +180,64 @@ def ancestors(cls, bases):
     return out
 
 
+def change_cid_raises(conn):
+    """what `change_connection_id()` — called by receive_datagram's migration block — can raise,
+    by situation: "empty" (no spare peer CID), "available", "always".  A `raise` (or the unguarded
+    `pop(0)` of `_consume_peer_cid`) is attributed to the branch of the `if self._peer_cid_available`
+    test it sits in."""
+    fn = find_method(conn, "QuicConnection", "change_connection_id")
+    out = []
+
+    def is_avail(t):
+        return isinstance(t, ast.Attribute) and t.attr == "_peer_cid_available"
+
+    def walk(stmts, sit):
+        for st in stmts:
+            if isinstance(st, ast.If):
+                t = st.test
+                if is_avail(t):
+                    walk(st.body, "available" if sit == "always" else sit)
+                    walk(st.orelse, "empty" if sit == "always" else sit)
+                elif isinstance(t, ast.UnaryOp) and isinstance(t.op, ast.Not) and is_avail(t.operand):
+                    walk(st.body, "empty" if sit == "always" else sit)
+                    walk(st.orelse, "available" if sit == "always" else sit)
+                    # statements after an `if not available: raise/return` run only when available
+                    if st.body and isinstance(st.body[-1], (ast.Raise, ast.Return)) and sit == "always":
+                        rest = stmts[stmts.index(st) + 1:]
+                        walk(rest, "available")
+                        return
+                else:
+                    walk(st.body, sit)
+                    walk(st.orelse, sit)
+            elif isinstance(st, ast.Raise):
+                exc = st.exc
+                name = "Exception"
+                if isinstance(exc, ast.Call):
+                    exc = exc.func
+                if isinstance(exc, ast.Name):
+                    name = exc.id
+                elif isinstance(exc, ast.Attribute):
+                    name = exc.attr
+                out.append((sit, name))
+            elif isinstance(st, (ast.Try, ast.With, ast.For, ast.While)):
+                raise ExtractError("change_connection_id: unexpected control flow")
+            else:
+                for n in ast.walk(st):
+                    if isinstance(n, ast.Assert):
+                        out.append((sit, "AssertionError"))
+                    if isinstance(n, ast.Call) and getattr(n.func, "attr", "") == "_consume_peer_cid" \
+                            and sit != "available":
+                        out.append(("empty", "IndexError"))     # pop(0) on an empty list
+    walk(fn.body, "always")
+    # the helpers it calls must not raise on their own
+    for helper in ("_retire_peer_cid", "_consume_peer_cid"):
+        h = find_method(conn, "QuicConnection", helper)
+        for n in ast.walk(h):
+            if isinstance(n, (ast.Raise, ast.Assert)):
+                out.append(("always", "Exception"))
+    return out
+
+
 EPOCH_LEAN = {"INITIAL": ".initial", "ZERO_RTT": ".zeroRtt", "HANDSHAKE": ".handshake", "ONE_RTT": ".oneRtt"}
 FUNCS = ["receive_datagram", "_payload_received", "_handle_crypto_frame", "_handle_connection_close_frame",
          "_handle_path_response_frame", "_handle_reset_stream_frame", "_handle_stream_frame",
@@ -250,6 +308,11 @@ def generate(repo):
     L.append("def ancestors : List (String × List String) := [")
     L.append(",\n".join('  ("%s", [%s])' % (c, ", ".join('"%s"' % a for a in ancestors(c, bases))) for c in classes))
     L.append("]")
+    L.append("")
+    L.append("/-- `change_connection_id()` (called by the migration block of receive_datagram): the")
+    L.append("    exceptions it raises, by situation \"empty\" / \"available\" / \"always\" -/")
+    L.append("def changeCidRaises : List (String × String) := [%s]" % ", ".join(
+        '("%s", "%s")' % x for x in change_cid_raises(conn)))
     L.append("")
     ec = enums["QuicErrorCode"]
     L.append("def errorCodes : List (String × Nat) := [%s]" % ", ".join('("%s", 0x%X)' % (k, v) for k, v in ec.items()))
